@@ -119,7 +119,9 @@ def pred_check(v, tier, seed):
         for l in impl_out:
             if l.startswith(("E ", "T ")):
                 for key, want, what in (("isdc", "100", "invariants::state_depth_current_run at (k-1, k, k+1), k = entries of the current run"),
-                                        ("geh", "110", "goals::event_happened_n_times_current_run(timer fired) at (f-1, f, f+1), f = firings in the current run")):
+                                        ("geh", "110", "goals::event_happened_n_times_current_run(timer fired) at (f-1, f, f+1), f = firings in the current run"),
+                                        ("emp", "101001", "all_invariants / any_goal / all_goals / any_prune / any_collect / all_collects over an empty list (all: vacuously satisfied, any: not)"),
+                                        ("pst", "1", "built-in predicates kept alive across the states of a run vs built afresh for the state (1 = same verdicts)")):
                     m = re.search(rf"{key}=(\w+)", l)
                     if m and m.group(1) != want:
                         return f"{what}: answers {m.group(1)}, by the documentation {want}; state: {l[:300]}"
@@ -219,7 +221,7 @@ PROPS = {
             "suites": [sim("sim_logs", "C17", dict(p_fault=0.5, p_crash=0.4, p_link=0.3, nodes=(2, 3), procs=(2, 4)),
                            nontrivial=lambda st: st["received"] and (st["dropped"] or st["crash"]),
                            extra=lambda rng, tier: [(f"cb{i}", sim_suite.gen_crash_burst(rng)) for i in range(150 if tier == "quick" else 3000)])]},
-    "C18": {"ready": True, "replay": auto_replay, "suites": [lambda v, tier, seed: py_suite.run(v, tier, seed), py_suite.copy_isolation, py_suite.restore_probe, py_suite.order_probe, py_suite.unpicklable_probe, py_suite.sim_twin],
+    "C18": {"ready": True, "replay": auto_replay, "suites": [lambda v, tier, seed: py_suite.run(v, tier, seed), py_suite.copy_isolation, py_suite.restore_probe, py_suite.order_probe, py_suite.unpicklable_probe, py_suite.negative_delay_probe, py_suite.sim_twin],
             "partial": "pickle, deepcopy, PyO3 conversions and JSON text are runtime behaviour covered by the correspondence runs only"},
     "C19": {"ready": True, "replay": mc_checks.replay, "suites": [pred_check],
             "partial": "state_depth_current_run is proved only in its sound half (finding D11); time_limit (wall clock) is outside the model"},
@@ -257,11 +259,11 @@ PROPS = {
                           extra_gen=mc_checks.gen_payload_twins),
                        snapshot_check(walk=0, routes=False)]},
     "C14": {"ready": True, "replay": mc_checks.replay,
-            "suites": [mc("mc_crash", dict(p_crash=1.0, nodes=(2, 3), procs=(2, 4), p_link=0.4, staged=0.5), refenum=True, extra_gen=mc_checks.gen_crash_then_heal,
+            "suites": [mc("mc_crash", dict(p_crash=1.0, nodes=(2, 3), procs=(2, 4), p_link=0.4, staged=0.5), refenum=True, extra_gen=lambda rng, tier: mc_checks.gen_crash_then_heal(rng, tier) + mc_checks.gen_crash_after_dup(rng, tier),
                           nontrivial=lambda st: st["crash"] and st["multi_states"])]},
     "C16": {"ready": True, "replay": auto_replay,
             "partial": "the union over start states is a theorem for the Disabled cache (runFromStates_disabled_concat) and for an exact shared cache with state-based predicates (runFromStates_ok_union); with path-dependent predicates and a shared cache the outcome depends on the hash order of equal-depth start states and is only observed",
-            "suites": [mc("mc_staged", dict(staged=1.0, staged3=0.5, p_crash=0.3, depth=(2, 4)), extra_gen=mc_checks.gen_staged_gate, nontrivial=lambda st: st["staged"] and st["multi_states"])]},
+            "suites": [mc("mc_staged", dict(staged=1.0, staged3=0.5, p_crash=0.3, depth=(2, 4)), extra_gen=lambda rng, tier: mc_checks.gen_staged_gate(rng, tier) + mc_checks.gen_visited_precallback(rng, tier), nontrivial=lambda st: st["staged"] and st["multi_states"])]},
     "C20": {
         "ready": True,
         "suites": [lambda v, tier, seed: store_suite.run(v, tier, seed)],
